@@ -32,6 +32,7 @@ mod verif_kani {
         if a[1] != b[1] { return a[1] < b[1]; }
         a[0] < b[0]
     }
+    fn eq4(a: &L, b: &L) -> bool { a[0] == b[0] && a[1] == b[1] && a[2] == b[2] && a[3] == b[3] }
     fn add4(a: &L, b: &L) -> (L, bool) {
         let mut r = [0u64; 4];
         let mut c: u128 = 0;
@@ -121,7 +122,7 @@ mod verif_kani {
 
     // ---- the specification's own reference shifts against the bit-level definition --------------------
     #[kani::proof]
-    #[kani::unwind(6)]
+    #[kani::unwind(34)]
     fn spec_shift_refs() {
         let a = any_l();
         let n: usize = kani::any();
@@ -140,7 +141,7 @@ mod verif_kani {
 
     // ---- constants ---------------------------------------------------------------------------------------
     #[kani::proof]
-    #[kani::unwind(6)]
+    #[kani::unwind(34)]
     fn consts() {
         assert!(l(M) == P, "M/is-bn254-scalar-modulus");
         assert!(l(HALF_M) == HALF, "HALF_M/is-p-minus-1-over-2");
@@ -150,7 +151,7 @@ mod verif_kani {
 
     // ---- signed comparisons ------------------------------------------------------------------------------
     #[kani::proof]
-    #[kani::unwind(6)]
+    #[kani::unwind(34)]
     fn signed_cmp() {
         let a = any_p();
         let b = any_p();
@@ -164,7 +165,7 @@ mod verif_kani {
 
     // ---- Operation::eval: comparison and logic operators -------------------------------------------------
     #[kani::proof]
-    #[kani::unwind(6)]
+    #[kani::unwind(34)]
     fn eval_cmp_logic() {
         let a = any_p();
         let b = any_p();
@@ -182,7 +183,7 @@ mod verif_kani {
 
     // ---- Operation::eval: Add / Sub ----------------------------------------------------------------------
     #[kani::proof]
-    #[kani::unwind(6)]
+    #[kani::unwind(34)]
     fn eval_add() {
         let a = any_p();
         let b = any_p();
@@ -192,7 +193,7 @@ mod verif_kani {
         if which == 1 { assert!(r == addmod(&a, &b), "Operation_eval/add-is-sum-mod-p"); }
     }
     #[kani::proof]
-    #[kani::unwind(6)]
+    #[kani::unwind(34)]
     fn eval_sub() {
         let a = any_p();
         let b = any_p();
@@ -204,7 +205,7 @@ mod verif_kani {
 
     // ---- Operation::eval: bitwise -------------------------------------------------------------------------
     #[kani::proof]
-    #[kani::unwind(6)]
+    #[kani::unwind(34)]
     fn eval_band() {
         let a = any_p();
         let b = any_p();
@@ -214,7 +215,7 @@ mod verif_kani {
         if which == 1 { assert!(r == red1(&bw(&a, &b, 0)), "Operation_eval/band-is-and-reduced-mod-p"); }
     }
     #[kani::proof]
-    #[kani::unwind(6)]
+    #[kani::unwind(34)]
     fn eval_bor() {
         let a = any_p();
         let b = any_p();
@@ -227,7 +228,7 @@ mod verif_kani {
         if which == 2 && lt4(&t, &P) { assert!(r == t, "Operation_eval/bor-exact-when-or-below-p"); }
     }
     #[kani::proof]
-    #[kani::unwind(6)]
+    #[kani::unwind(34)]
     fn eval_bxor() {
         let a = any_p();
         let b = any_p();
@@ -241,7 +242,7 @@ mod verif_kani {
 
     // ---- Operation::eval: shifts (and the private helpers they dispatch to) -------------------------------
     #[kani::proof]
-    #[kani::unwind(6)]
+    #[kani::unwind(34)]
     fn shift_dispatch() {
         let a = any_p();
         let b = any_p();
@@ -252,7 +253,7 @@ mod verif_kani {
     }
     // shift count below 254
     #[kani::proof]
-    #[kani::unwind(6)]
+    #[kani::unwind(34)]
     fn eval_shl_small() {
         let a = any_p();
         let b = any_p();
@@ -269,7 +270,7 @@ mod verif_kani {
     }
     // shift count 254 or 255: circom gives 0
     #[kani::proof]
-    #[kani::unwind(6)]
+    #[kani::unwind(34)]
     fn eval_shl_254_255() {
         let a = any_p();
         let b = any_p();
@@ -279,7 +280,7 @@ mod verif_kani {
     }
     // shift count 256 .. p-1: circom gives 0 (the helper has a debug_assert!(b < 256) and reads only the low limb)
     #[kani::proof]
-    #[kani::unwind(6)]
+    #[kani::unwind(34)]
     fn eval_shl_ge_256() {
         let a = any_p();
         let b = any_p();
@@ -288,7 +289,7 @@ mod verif_kani {
         assert!(r == ZERO, "Operation_eval/shl-by-256-or-more-is-zero");
     }
     #[kani::proof]
-    #[kani::unwind(6)]
+    #[kani::unwind(34)]
     fn eval_shr_lt_256() {
         let a = any_p();
         let b = any_p();
@@ -306,7 +307,7 @@ mod verif_kani {
         }
     }
     #[kani::proof]
-    #[kani::unwind(6)]
+    #[kani::unwind(34)]
     fn eval_shr_ge_256() {
         let a = any_p();
         let b = any_p();
@@ -317,14 +318,14 @@ mod verif_kani {
 
     // ---- Operation::eval: integer division and remainder --------------------------------------------------
     #[kani::proof]
-    #[kani::unwind(6)]
+    #[kani::unwind(34)]
     fn eval_idiv_zero_divisor() {
         let a = any_p();
         let r = l(Operation::Idiv.eval(u(a), u(ZERO)));
         assert!(r == ZERO, "Operation_eval/idiv-by-zero-is-zero");
     }
     #[kani::proof]
-    #[kani::unwind(6)]
+    #[kani::unwind(34)]
     fn eval_mod_zero_divisor() {
         let a = any_p();
         let r = l(Operation::Mod.eval(u(a), u(ZERO)));
@@ -332,7 +333,7 @@ mod verif_kani {
     }
     // non-zero divisor: quotient / remainder delivered by ruint's Knuth division (attempted; see units.json)
     #[kani::proof]
-    #[kani::unwind(6)]
+    #[kani::unwind(34)]
     fn eval_idiv_mod_nonzero() {
         let a = any_p();
         let b = any_p();
@@ -350,7 +351,7 @@ mod verif_kani {
 
     // ---- UnoOperation::eval / TresOperation::eval ----------------------------------------------------------
     #[kani::proof]
-    #[kani::unwind(6)]
+    #[kani::unwind(34)]
     fn uno_eval() {
         let a = any_p();
         let which: u8 = kani::any();
@@ -366,7 +367,7 @@ mod verif_kani {
         if which == 2 { assert!(l(UnoOperation::Id.eval(u(a))) == a, "UnoOperation_eval/id-is-identity"); }
     }
     #[kani::proof]
-    #[kani::unwind(6)]
+    #[kani::unwind(34)]
     fn tres_eval() {
         let a = any_p();
         let b = any_p();
@@ -381,21 +382,21 @@ mod verif_kani {
     // map onto them) and by the integer evaluator; eval_fr must not crash on them.  No field arithmetic is
     // executed on these paths, so the raw Montgomery representation of the operands is left symbolic.
     #[kani::proof]
-    #[kani::unwind(6)]
+    #[kani::unwind(34)]
     fn eval_fr_pow() {
         let a = fr_raw(any_p());
         let b = fr_raw(any_p());
         let _ = Operation::Pow.eval_fr(a, b);
     }
     #[kani::proof]
-    #[kani::unwind(6)]
+    #[kani::unwind(34)]
     fn uno_eval_fr_id() {
         let a = fr_raw(any_p());
         let _ = UnoOperation::Id.eval_fr(a);
     }
     // TresOperation::eval_fr only tests `a.is_zero()` (zero has the all-zero Montgomery representation)
     #[kani::proof]
-    #[kani::unwind(6)]
+    #[kani::unwind(34)]
     fn tres_eval_fr() {
         let a = any_p();
         let b = any_p();
